@@ -254,8 +254,18 @@ def borrow(ctx: Ctx, res: Result, tier: str, module_name: str, rules, as_rule: s
     mod = importlib.import_module("sa.props." + module_name)
     pid = module_name.upper()
     memo = ctx._extra.setdefault("borrowed", {})
-    sub = memo.get(pid)
+    stack = ctx._extra.setdefault("borrow_stack", [])
+    if not stack:
+        stack.append(res.pid)
+    if pid in stack:
+        # mutual borrowing (A rests on B, B on A): the rules asked for are B's own, they do not depend on what B borrows
+        ctx._extra["borrow_cut"] = True
+        return
+    sub = memo.get(pid) or memo.get(pid + ":partial")
     if sub is None:
+        stack.append(pid)
+        cut_before = ctx._extra.get("borrow_cut", False)
+        ctx._extra["borrow_cut"] = False
         try:
             sub = mod.run(ctx, tier)
         except AnalysisError:
@@ -264,8 +274,14 @@ def borrow(ctx: Ctx, res: Result, tier: str, module_name: str, rules, as_rule: s
                 _report.CURRENT = res
                 raise
         finally:
-            pass
-        memo[pid] = sub
+            stack.pop()
+            was_cut = ctx._extra.get("borrow_cut", False)
+            ctx._extra["borrow_cut"] = cut_before or was_cut
+        # a result computed while one of its own borrowings was cut is good for its own rules only: never reuse it as
+        # the full result of that property
+        memo[pid + ":partial" if was_cut else pid] = sub
+    if sub is None:
+        sub = memo.get(pid + ":partial")
     _report.CURRENT = res
     for rid in rules:
         r_ = sub.rules.get(rid, {"obligations": 0, "discharged": 0})
